@@ -410,6 +410,10 @@ func init() {
 				return err
 			}
 			if c.Replay == "" {
+				// boundary of the id-order check of Import: re-sending log 1 right after log 1
+				if in.Variant == wlctrl.VFailAtK && in.K != 1 && c.R.Intn(3) == 0 {
+					in.K = 1
+				}
 				in.Paths = make([]string, len(in.Extra))
 				for i := range in.Paths {
 					in.Paths[i] = gen.Pick(c.R, []string{PathSingle, PathBulk, PathAtomic})
